@@ -14,10 +14,10 @@ import os
 # ------------------------------------------------------------------------------------------------ tokens
 
 class Tok:
-    __slots__ = ('k', 's', 'line', 'joint', 'ch')
+    __slots__ = ('k', 's', 'line', 'joint', 'ch', 'f')
     # k: 'id' 'num' 'str' 'chr' 'life' 'p' (one punctuation char) 'mv' ($name) 'grp' (s = '(' '[' '{', ch = children)
     def __init__(self, k, s, line=0, joint=False, ch=None):
-        self.k = k; self.s = s; self.line = line; self.joint = joint; self.ch = ch
+        self.k = k; self.s = s; self.line = line; self.joint = joint; self.ch = ch; self.f = None
     def __repr__(self):
         return 'Tok(%s,%r)' % (self.k, self.s if self.k != 'grp' else self.s + '…')
 
@@ -138,6 +138,11 @@ def tokenize(src):
         raise LexError('unclosed %r' % opens[-1])
     return stack[0]
 
+def set_file(toks, rel):
+    for t in toks:
+        t.f = rel
+        if t.k == 'grp': set_file(t.ch, rel)
+
 def is_p(t, s):
     return t is not None and t.k == 'p' and t.s == s
 
@@ -179,7 +184,7 @@ class MacroError(Exception):
 
 class Macro:
     def __init__(self, name, rules, module, line):
-        self.name = name; self.rules = rules; self.module = module; self.line = line
+        self.name = name; self.rules = rules; self.module = module; self.line = line; self.file = None
 
 def parse_pattern(toks):
     out = []; i = 0
@@ -362,8 +367,11 @@ def match_pat(pat, toks, pos, binds):
 
 def clone_tok(t, line=None):
     if t.k == 'grp':
-        return Tok('grp', t.s, t.line, ch=[clone_tok(c) for c in t.ch])
-    return Tok(t.k, t.s, t.line, t.joint)
+        n = Tok('grp', t.s, t.line, ch=[clone_tok(c) for c in t.ch])
+    else:
+        n = Tok(t.k, t.s, t.line, t.joint)
+    n.f = t.f
+    return n
 
 def transcribe(body, binds):
     out = []; i = 0
@@ -405,7 +413,8 @@ def transcribe(body, binds):
                 out.extend(transcribe(inner, b2))
             i = j; continue
         if t.k == 'grp':
-            out.append(Tok('grp', t.s, t.line, ch=transcribe(t.ch, binds))); i += 1; continue
+            g = Tok('grp', t.s, t.line, ch=transcribe(t.ch, binds)); g.f = t.f
+            out.append(g); i += 1; continue
         out.append(clone_tok(t)); i += 1
     return out
 
@@ -432,7 +441,7 @@ def expand_macro(mac, arg_toks):
 class FnItem:
     """one `fn` found in an impl block (after macro expansion)"""
     def __init__(self):
-        self.file = ''; self.line = 0; self.name = ''
+        self.file = ''; self.site = ''; self.line = 0; self.name = ''   # file: where the text is; site: where the macro was expanded
         self.self_kind = None      # 'UI' | 'II' | None (other type)
         self.self_ref = False      # impl … for &T
         self.self_text = ''
@@ -485,6 +494,7 @@ class Crate:
                 try:
                     with open(os.path.join(root, f), encoding='utf-8') as fh:
                         self.files[rel] = tokenize(fh.read())
+                    set_file(self.files[rel], rel)
                 except (LexError, OSError, UnicodeDecodeError) as e:
                     self.errors.append((rel, 'lex: %s' % e))
         # pass 1: top-level macro definitions of every file
@@ -494,7 +504,9 @@ class Crate:
             while i < len(toks):
                 if is_id(toks[i], 'macro_rules') and i + 3 < len(toks) and is_p(toks[i + 1], '!') and toks[i + 2].k == 'id' and is_grp(toks[i + 3]):
                     try:
-                        self.macros[(mod, toks[i + 2].s)] = parse_macro_rules(toks[i + 2].s, toks[i + 3], mod, toks[i].line)
+                        mc = parse_macro_rules(toks[i + 2].s, toks[i + 3], mod, toks[i].line)
+                        mc.file = rel
+                        self.macros[(mod, toks[i + 2].s)] = mc
                     except MacroError as e:
                         self.errors.append((rel, str(e)))
                     i += 4
@@ -506,7 +518,7 @@ class Crate:
             ctx.uses = collect_uses(toks)
             self.file_uses[rel] = ctx.uses
             try:
-                ctx.items(toks, None, {}, '', 0)
+                ctx.items(toks, None, {}, '', 0, rel)
             except (MacroError, LexError, IndexError) as e:
                 self.errors.append((rel, 'items: %s' % e))
 
@@ -569,7 +581,7 @@ class ItemCtx:
     def __init__(self, crate, rel, module):
         self.crate = crate; self.rel = rel; self.module = module; self.uses = set()
 
-    def items(self, toks, impl, local, via, depth):
+    def items(self, toks, impl, local, via, depth, srcfile):
         """walk items; impl = None or dict(kind, ref, text, trait, targs, consts)"""
         local = dict(local)
         i = 0; n = len(toks)
@@ -595,6 +607,7 @@ class ItemCtx:
             if is_id(t, 'macro_rules') and j + 3 < n and is_p(toks[j + 1], '!'):
                 try:
                     local[toks[j + 2].s] = parse_macro_rules(toks[j + 2].s, toks[j + 3], self.module, t.line)
+                    local[toks[j + 2].s].file = srcfile
                 except MacroError as e:
                     self.crate.errors.append((self.rel, str(e)))
                 i = j + 4; attrs = []; continue
@@ -604,7 +617,7 @@ class ItemCtx:
                 if k >= n: break
                 hdr = self.impl_header(toks[j + 1:k])
                 hdr['consts'] = {}
-                self.items(toks[k].ch, hdr, local, via, depth)
+                self.items(toks[k].ch, hdr, local, via, depth, srcfile)
                 i = k + 1; attrs = []; continue
             # fn item
             k = j
@@ -612,7 +625,7 @@ class ItemCtx:
                 k += 1
                 if k < n and toks[k].k == 'str': k += 1
             if k < n and is_id(toks[k], 'fn'):
-                end = self.fn_item(toks, k, impl, attrs, via)
+                end = self.fn_item(toks, k, impl, attrs, via, srcfile)
                 i = end; attrs = []; continue
             if is_id(t, 'const') and impl is not None and j + 1 < n and toks[j + 1].k == 'id':
                 # associated const:  const NAME: ty = expr;
@@ -642,7 +655,7 @@ class ItemCtx:
                             args = [Tok('id', 'BUint'), Tok('p', ','), Tok('id', 'BInt'), Tok('p', ','), Tok('id', 'u64')]
                             try:
                                 exp = expand_macro(m2, args)
-                                self.items(exp, impl, local, via, depth + 1)
+                                self.items(exp, impl, local, via, depth + 1, m2.file or srcfile)
                             except MacroError as e:
                                 self.crate.errors.append((self.rel, str(e)))
                     i = end; attrs = []; continue
@@ -650,7 +663,7 @@ class ItemCtx:
                     try:
                         exp = expand_macro(mac, grp.ch)
                         v = via or '::'.join(path)
-                        self.items(exp, impl, local, v if mac.module != self.module or via else via, depth + 1)
+                        self.items(exp, impl, local, v if mac.module != self.module or via else via, depth + 1, mac.file or srcfile)
                     except MacroError as e:
                         self.crate.errors.append((self.rel, str(e)))
                 i = end; attrs = []; continue
@@ -717,11 +730,13 @@ class ItemCtx:
             targs = norm_type_text(targs_toks, ('r' if ref else '') + (kind or text(ty)))
         return {'kind': kind, 'ref': ref, 'text': text(ty), 'trait': trait, 'targs': targs}
 
-    def fn_item(self, toks, k, impl, attrs, via):
+    def fn_item(self, toks, k, impl, attrs, via, srcfile):
         n = len(toks)
-        f = FnItem(); f.file = self.rel; f.line = toks[k].line; f.attrs = list(attrs); f.via = via; f.uses = self.uses
+        f = FnItem(); f.file = toks[k].f or srcfile; f.site = self.rel; f.line = toks[k].line; f.attrs = list(attrs); f.via = via; f.uses = self.uses
         k += 1
-        f.name = toks[k].s; k += 1
+        f.name = toks[k].s
+        if toks[k].f: f.file = toks[k].f; f.line = toks[k].line   # the name token comes from the text that defines the function
+        k += 1
         if k < n and is_p(toks[k], '<'):
             e = skip_angle(toks, k); f.generics = toks[k + 1:e - 1]; k = e
         if not is_grp(toks[k], '('): raise MacroError('fn %s: parameter list expected' % f.name)
